@@ -28,14 +28,17 @@ func checkC01(c *Ctx) {
 	c.Rule("C01.R4", "rectangle shortcuts of (*Bounds).Intersection and (*Bounds).Within(*Bounds) agree with the box relation that guards them, for every weak ordering of the coordinates; (*Bounds).Polygons is the rectangle ring")
 	c.Rule("C01.R5", "the external clipper's trivial-case switches (an operand empty / bounding boxes disjoint) give XOR the same result as UNION")
 	a := &c01{c: c, info: c.P.Pkg("geom").TypesInfo}
-	a.r1()
-	a.r2r3()
+	if m := newClipModel(c); m.ok() {
+		m.runSetOps("C01.R1", "C01.R2", "C01.R3")
+	} else {
+		c.Unk("C01.R1", "geom#clip-model", token.NoPos, "geometry or clipper types do not resolve")
+	}
 	a.r4()
 	a.r5()
 	c.exhaust = true
 	c.Floor("C01.R1", 12)
-	c.Floor("C01.R2", 3)
-	c.Floor("C01.R3", 1)
+	c.Floor("C01.R2", 12)
+	c.Floor("C01.R3", 12)
 	c.Floor("C01.R4", 7)
 	c.Floor("C01.R5", 2)
 }
@@ -503,27 +506,79 @@ func (a *c01) r4() {
 			c.OK("C01.R4", wname, wpos, "equal→OnEdge, contained→Inside, else Outside in all %d orderings", n)
 		}
 	}
-	// Polygons(): the rectangle ring
+	// Polygons(): the rectangle ring — evaluated abstractly on a box with four distinct ranks, so
+	// any way of writing it (literal, helper, locals) is judged by its value
 	if pm := c.P.Method("geom", "Bounds", "Polygons"); pm != nil && c.P.Decl(pm) != nil {
 		fd := c.P.Decl(pm)
 		pname := c.P.FuncName(pm)
-		recv := receiverVar(a.info, fd)
-		msg := "body is not a single return of a []Polygon literal"
-		if len(fd.Body.List) == 1 {
-			if r, ok := fd.Body.List[0].(*ast.ReturnStmt); ok && len(r.Results) == 1 {
-				if lit, ok := unparen(r.Results[0]).(*ast.CompositeLit); ok && len(lit.Elts) == 1 {
-					if pl, ok := unparen(lit.Elts[0]).(*ast.CompositeLit); ok {
-						msg = rectangleRing(a.info, pl, recv)
-					}
-				}
-			}
+		box := oBox{0, 1, 2, 3}
+		res, why := e.it.Call(pm, oPtr{e.mk(box)}, nil, 0)
+		msg := ""
+		switch {
+		case why != "":
+			c.Unk("C01.R4", pname, fd.Pos(), "outside the order fragment: %s", why)
+			msg = "-"
+		default:
+			msg = rectangleValue(res[0], box)
 		}
 		if msg == "" {
-			c.OK("C01.R4", pname, fd.Pos(), "one polygon, one ring, four corners in ring order")
-		} else {
+			c.OK("C01.R4", pname, fd.Pos(), "one polygon, one ring, the four corners in ring order (value computed on a box with distinct coordinates)")
+		} else if msg != "-" {
 			c.Bad("C01.R4", pname, fd.Pos(), "%s", msg)
 		}
 	}
+}
+
+// rectangleValue: v is [][][]Point = one polygon of one ring listing the corners of box in
+// ring order (either direction, any start, optionally closed).
+func rectangleValue(v oval, box oBox) string {
+	polys, ok := v.(oSlice)
+	if !ok || polys.length() != 1 {
+		return "Polygons() does not return exactly one polygon: " + showVal(v)
+	}
+	poly, ok := polys.at(0).(oSlice)
+	if !ok || poly.length() != 1 {
+		return "the rectangle polygon does not have exactly one ring: " + showVal(polys.at(0))
+	}
+	ring, ok := poly.at(0).(oSlice)
+	if !ok || ring.length() < 4 || ring.length() > 5 {
+		return "the rectangle ring does not list 4 (or 5, closed) corners: " + showVal(poly.at(0))
+	}
+	type pt struct{ x, y int64 }
+	var got []pt
+	for i := 0; i < ring.length(); i++ {
+		st, ok := ring.at(i).(*oStruct)
+		if !ok {
+			return "ring element is not a point"
+		}
+		x, okx := st.fields["X"].(oFloat)
+		y, oky := st.fields["Y"].(oFloat)
+		if !okx || !oky {
+			return "corner " + showVal(st) + " is not made of the box's coordinates"
+		}
+		got = append(got, pt{x.r, y.r})
+	}
+	if len(got) == 5 {
+		if got[4] != got[0] {
+			return "five corners but the last does not repeat the first"
+		}
+		got = got[:4]
+	}
+	want := []pt{{box.minx, box.miny}, {box.maxx, box.miny}, {box.maxx, box.maxy}, {box.minx, box.maxy}}
+	for _, dir := range []int{1, -1} {
+		for start := 0; start < 4; start++ {
+			okAll := true
+			for k := 0; k < 4; k++ {
+				if got[k] != want[((start+dir*k)%4+4)%4] {
+					okAll = false
+				}
+			}
+			if okAll {
+				return ""
+			}
+		}
+	}
+	return fmt.Sprintf("the ring %v is not the box's four corners in ring order (want (minx,miny),(maxx,miny),(maxx,maxy),(minx,maxy) up to rotation/direction)", showVal(ring))
 }
 
 // ---------------------------------------------------------------- R5
